@@ -50,8 +50,9 @@ def run(repo, res):
                     bad.append((s.variant, lk[:2], own.path if own is not None else None))
             else:
                 # text-searched kinds: search must start at the statement and look for this identifier
+                # (or be computed from parser positions and identifier lengths: that form is evaluated on the layout corpus below)
                 ok = lk[0] == 'text_search' and lk[1] == 'node' and lk[2] is not None \
-                    and str(lk[2][0]).strip() == binder['ident']
+                    and str(lk[2][0]).strip() == binder['ident'] or lk[0] in ('np', 'arith')
                 if not ok:
                     bad.append((s.variant, lk, 'text search from the statement start for %r' % binder['ident']))
         if kind in pyref.PARSER_POSITIONED:
@@ -63,7 +64,7 @@ def run(repo, res):
             n3 += 1
             res.check('C11-R3', key, not bad, r['line'][0], r['line'][1],
                       'declared_at of %s (no node of its own) must come from find_id_loc started at the statement, '
-                      'searching the bound identifier; found %s' % (key, bad[:2]),
+                      'searching the bound identifier, or be computed from parser positions; found %s' % (key, bad[:2]),
                       sample='%s: declared_at = find_id_loc(identifier, np(statement))' % key)
     # the text search itself, interpreted with the visitors' call shape on a corpus of layouts
     from .. import textsearch
@@ -86,34 +87,35 @@ def run(repo, res):
     res.count('parser_positioned_binders', n1, floor=35)
     res.count('text_searched_binders', n3, floor=5)
     # fallback of the text search is the statement start
-    fid = repo.method(SCOPE, 'SourceScope', 'find_id_loc')
-    frets = [r for r in ast.walk(fid) if isinstance(r, ast.Return) and r.value is not None]
-    fallback = [r for r in frets if unparse(r.value) == 'start']
-    other = [r for r in frets if unparse(r.value) != 'start']
-    res.check('C11-R3', 'find_id_loc fallback', bool(fallback) and len(other) == 1, SCOPE, fid.lineno,
-              'find_id_loc must return either the found position or, when the identifier is not found, the statement start '
-              '(returns: %s)' % [unparse(r.value)[:40] for r in frets])
-
-    # the delimiter sets of the text search must not contain identifier characters: otherwise a longer identifier that
-    # merely starts or ends with the searched name is accepted as the name
     from ..absint import Interp
     from ..facts import get_facts
+    from .. import textsearch as _ts
     import string as _string
     it = Interp(repo, get_facts(repo))
     ident_chars = set(_string.ascii_letters + _string.digits + '_')
-    used = sorted({n.id for n in ast.walk(fid) if isinstance(n, ast.Name) and n.id.isupper()})
-    for const in used:
-        try:
-            val = it.lookup_global(SCOPE, const)
-        except Exception:
-            val = None
-        if not isinstance(val, str):
-            continue
-        overlap = sorted(set(val) & ident_chars)
-        res.check('C11-R3', 'find_id_loc delimiter set %s' % const, not overlap, SCOPE, fid.lineno,
-                  'the delimiter set %s of the identifier text search contains identifier characters %s: `import json_tool, json` '
-                  'then finds "json" inside "json_tool" and reports that position' % (const, overlap),
-                  sample='%s contains no identifier character' % const)
+    for hrel, hcls, hname, fid in _ts.search_helpers(repo):
+        start_param = fid.args.args[2].arg
+        frets = [r for r in ast.walk(fid) if isinstance(r, ast.Return) and r.value is not None]
+        fallback = [r for r in frets if unparse(r.value) == start_param]
+        other = [r for r in frets if unparse(r.value) != start_param]
+        res.check('C11-R3', '%s fallback' % hname, bool(fallback) and len(other) == 1, hrel, fid.lineno,
+                  '%s.%s must return either the found position or, when the identifier is not found, the statement start '
+                  '(returns: %s)' % (hcls, hname, [unparse(r.value)[:40] for r in frets]))
+        # the delimiter sets of the text search must not contain identifier characters: otherwise a longer identifier that
+        # merely starts or ends with the searched name is accepted as the name
+        used = sorted({n.id for n in ast.walk(fid) if isinstance(n, ast.Name) and n.id.isupper()})
+        for const in used:
+            try:
+                val = it.lookup_global(hrel, const)
+            except Exception:
+                val = None
+            if not isinstance(val, str):
+                continue
+            overlap = sorted(set(val) & ident_chars)
+            res.check('C11-R3', '%s delimiter set %s' % (hname, const), not overlap, hrel, fid.lineno,
+                      'the delimiter set %s of the identifier text search contains identifier characters %s: `import json_tool, json` '
+                      'then finds "json" inside "json_tool" and reports that position' % (const, overlap),
+                      sample='%s contains no identifier character' % const)
 
     # ---- R2 positions are copied --------------------------------------------------------------
     uses = []
